@@ -62,6 +62,26 @@ Proof.
   induction Hall as [|a r Ha _ IH]; simpl; auto. now rewrite Ha, IH.
 Qed.
 
+Lemma fn_args_nil args : fn_args args = [] -> existsb has_var args = false.
+Proof.
+  induction args as [|a args IH]; intro H; auto.
+  unfold fn_args in H. simpl in H.
+  destruct (negb (is_ws a) && negb (is_comma a)) eqn:E; [discriminate|].
+  simpl. rewrite (IH H). destruct a; simpl in *; auto; discriminate.
+Qed.
+
+(* a var() that counts names its custom property first *)
+Lemma has_var_var n ln args :
+  String.eqb ln "var" = true -> has_var (TFunc n ln args) = true ->
+  exists v lv default, fn_args args = TIdent v lv :: default.
+Proof.
+  intros Hln Hv. rewrite has_var_func, Hln in Hv.
+  destruct (fn_ok _); [|discriminate].
+  destruct (fn_args args) as [|a default] eqn:Ea.
+  - simpl in Hv. rewrite (fn_args_nil _ Ea) in Hv. discriminate.
+  - simpl in Hv. destruct a; try discriminate. eauto.
+Qed.
+
 Lemma subst_each_not_none rv vs : subst_each rv vs <> Some RNone.
 Proof.
   induction vs as [|v vs IH]; simpl; try discriminate.
@@ -115,12 +135,12 @@ Section VarProofs.
     destruct fuel; simpl; [discriminate|].
     destruct (has_var t) eqn:E; simpl; auto.
     destruct t; try discriminate.
-    destruct (negb (String.eqb ln "var")).
+    destruct (String.eqb ln "var") eqn:Hln; simpl.
+    - destruct (has_var_var _ _ _ Hln E) as (v & lv & default & Ea). rewrite Ea.
+      intro H. exfalso. eapply subst_each_not_none; eauto.
     - pose proof (rebuild_not_none (resolve_var fuel) args) as NN.
       destruct (rebuild (resolve_var fuel) args) as [[|arguments|]|]; try discriminate; try congruence.
       destruct (resolve_var fuel (TFunc n ln arguments)) as [[|[|]|]|]; discriminate.
-    - destruct (fn_args args) as [|[] default]; try discriminate.
-      intro H. exfalso. eapply subst_each_not_none; eauto.
   Qed.
 
   (* ---- soundness: whatever resolve_var returns is the substitution *)
@@ -160,9 +180,7 @@ Section VarProofs.
     destruct (has_var t) eqn:Hv; simpl in H; [|discriminate].
     destruct t; try discriminate.
     destruct (String.eqb ln "var") eqn:Hln; simpl in H.
-    - pose proof Hv as Hv'. rewrite has_var_func in Hv'.
-      destruct (fn_args args) as [|[v lv| | | | | | |] default] eqn:Ea; try discriminate;
-        try (destruct (fn_ok _); simpl in Hv'; rewrite ?Hln in Hv'; simpl in Hv'; discriminate).
+    - destruct (has_var_var _ _ _ Hln Hv) as (v & lv & default & Ea). rewrite Ea in H.
       apply S_var with (x := v); auto.
       + unfold impl_var_name. now rewrite Ea.
       + unfold impl_key, impl_fallback. rewrite Ea. simpl tl.
@@ -211,8 +229,8 @@ Section VarProofs.
   Definition fine (x : vres) : Prop := x <> RTypeError.
 
   Lemma subst_each_fine F vs :
-    (forall v, In v vs -> forall f, F <= f -> exists x, resolve_var f v = Some x /\ fine x) ->
-    forall f, F <= f -> exists r, subst_each (resolve_var f) vs = Some (RToks r).
+    (forall v, In v vs -> forall f, (F <= f)%nat -> exists x, resolve_var f v = Some x /\ fine x) ->
+    forall f, (F <= f)%nat -> exists r, subst_each (resolve_var f) vs = Some (RToks r).
   Proof.
     induction vs as [|v vs IH]; intros H f Hf; simpl.
     - eauto.
@@ -221,19 +239,170 @@ Section VarProofs.
       destruct x; [eauto|eauto|]. exfalso. now apply Hfine.
   Qed.
 
-  Lemma regular_func n ln args a :
-    has_var (TFunc n ln args) = true -> regular (TFunc n ln args) = true -> In a args ->
-    regular a = true /\ (is_func a = true -> String.eqb ln "var" = false -> has_var a = true).
+  Lemma rebuild_fine F args :
+    (forall a, In a args -> is_func a = true ->
+               forall f, (F <= f)%nat -> exists l, resolve_var f a = Some (RToks l)) ->
+    forall f, (F <= f)%nat -> exists r, rebuild (resolve_var f) args = Some (RToks r).
   Proof.
-    intros Hv Hr Hin. cbn [regular] in Hr. rewrite Hv in Hr.
-    induction args as [|b args IH]; [destruct Hin|].
-    apply andb_true_iff in Hr. destruct Hr as [Hb Hrest].
-    destruct Hin as [->|Hin].
-    - destruct (is_func a) eqn:Fa.
-      + apply andb_true_iff in Hb. destruct Hb as [H1 H2]. split; auto.
-        intros _ Hln. rewrite Hln in H1. exact H1.
-      + split; [|discriminate]. destruct a; try reflexivity; discriminate.
-    - apply IH; auto.
-      (* has_var of the shorter function is not needed: restate on the list *)
-  Abort.
+    induction args as [|a args IH]; intros H f Hf; simpl.
+    - eauto.
+    - destruct (IH (fun u Hu => H u (or_intror Hu)) f Hf) as [rest Hrest]. rewrite Hrest.
+      destruct (is_func a) eqn:Fa; [|eauto].
+      destruct (H a (or_introl eq_refl) Fa f Hf) as [l Hl]. rewrite Hl. eauto.
+  Qed.
+
+  Lemma forallb_fix (g : tok -> bool) args :
+    (fix all (l : list tok) : bool := match l with [] => true | a :: r => g a && all r end) args = forallb g args.
+  Proof. reflexivity. Qed.
+
+  Lemma common_bound {A} (Q : A -> nat -> Prop) (l : list A) :
+    Forall (fun a => exists F, forall f, (F <= f)%nat -> Q a f) l ->
+    exists F, forall a, In a l -> forall f, (F <= f)%nat -> Q a f.
+  Proof.
+    induction 1 as [|a l [Fa Ha] _ [Fl Hl]].
+    - exists 0%nat. intros a [].
+    - exists (Nat.max Fa Fl). intros b [<-|Hb] f Hf.
+      + apply Ha. lia.
+      + apply Hl; auto. lia.
+  Qed.
+
+  Lemma in_fn_args a args : In a (fn_args args) -> In a args.
+  Proof. unfold fn_args. intro H. apply filter_In in H. tauto. Qed.
+
+  Theorem resolve_var_fuel_sufficient n t :
+    refs_lt rk n t = true -> regular t = true ->
+    exists F, forall f, (F <= f)%nat -> exists x, resolve_var f t = Some x /\ fine x.
+  Proof.
+    revert t. induction n as [n IHn] using lt_wf_ind.
+    assert (Plain : forall t, has_var t = false ->
+              exists F, forall f, (F <= f)%nat -> exists x, resolve_var f t = Some x /\ fine x).
+    { intros t Hv. exists 1%nat. intros f Hf. destruct f as [|f]; [lia|]. cbn [C07Var.resolve_var]. rewrite Hv. simpl.
+      exists RNone. split; auto. discriminate. }
+    induction t as [| | | | | |nm ln args IHargs|] using tok_induction; intros Hrefs Hreg;
+      try (apply Plain; reflexivity).
+    destruct (has_var (TFunc nm ln args)) eqn:Hv; [|now apply Plain].
+    cbn [refs_lt] in Hrefs. rewrite Hv, forallb_fix in Hrefs.
+    apply andb_true_iff in Hrefs. destruct Hrefs as [Hname Hrefs].
+    cbn [regular] in Hreg. rewrite Hv in Hreg.
+    rewrite (forallb_fix (fun a => if is_func a then (String.eqb ln "var" || has_var a) && regular a else true))
+      in Hreg.
+    rewrite forallb_forall in Hrefs, Hreg.
+    assert (RegArg : forall a, In a args -> regular a = true).
+    { intros a Ha. specialize (Hreg a Ha). destruct (is_func a) eqn:Fa.
+      - apply andb_true_iff in Hreg. tauto.
+      - destruct a; try reflexivity; discriminate. }
+    (* a bound for all the arguments *)
+    assert (Bargs : exists F, forall a, In a args -> forall f, (F <= f)%nat ->
+                                        exists x, resolve_var f a = Some x /\ fine x).
+    { apply (common_bound (fun a f => exists x, resolve_var f a = Some x /\ fine x)).
+      rewrite Forall_forall in *. intros a Ha. apply IHargs; auto. }
+    destruct Bargs as [Fa HFa].
+    destruct (String.eqb ln "var") eqn:Hln.
+    - destruct (has_var_var _ _ _ Hln Hv) as (v & lv & default & Ea).
+      rewrite Ea in Hname. apply Nat.ltb_lt in Hname.
+      (* a bound for the tokens of the custom property *)
+      assert (Benv : exists F, forall u, In u (env (underscore v)) -> forall f, (F <= f)%nat ->
+                                         exists x, resolve_var f u = Some x /\ fine x).
+      { apply (common_bound (fun u f => exists x, resolve_var f u = Some x /\ fine x)).
+        pose proof (Hranked (underscore v)) as Hk. rewrite Forall_forall in *.
+        intros u Hu. destruct (Hk u Hu) as [R1 R2]. apply (IHn _ Hname u R1 R2). }
+      destruct Benv as [Fe HFe].
+      exists (S (Nat.max Fa Fe)). intros f Hf. destruct f as [|f]; [lia|].
+      cbn [C07Var.resolve_var]. rewrite Hv, Hln, Ea. cbn [negb].
+      destruct (env (underscore v)) as [|e0 erest] eqn:Ee.
+      + destruct (subst_each_fine Fa default) with (f := f) as [r Hr]; [|lia|].
+        * intros u Hu. apply HFa. apply in_fn_args. rewrite Ea. now right.
+        * rewrite Hr. exists (RToks r). split; auto. discriminate.
+      + destruct (subst_each_fine Fe (e0 :: erest)) with (f := f) as [r Hr]; [|lia|].
+        * intros u Hu. apply HFe. exact Hu.
+        * rewrite Hr. exists (RToks r). split; auto. discriminate.
+    - exists (S (S Fa)). intros f Hf. destruct f as [|f]; [lia|].
+      cbn [C07Var.resolve_var]. rewrite Hv, Hln. cbn [negb].
+      destruct (rebuild_fine Fa args) with (f := f) as [r Hr]; [|lia|].
+      + intros a Ha Fn f' Hf'. destruct (HFa a Ha f' Hf') as [x [Hx Hfine]].
+        specialize (Hreg a Ha). rewrite Fn in Hreg. simpl in Hreg.
+        apply andb_true_iff in Hreg. destruct Hreg as [Hva _].
+        destruct x as [|l|].
+        * apply resolve_has_var in Hx. congruence.
+        * eauto.
+        * exfalso. now apply Hfine.
+      + rewrite Hr.
+        assert (Hfree : has_var (TFunc nm ln r) = false).
+        { apply has_var_func_varfree; auto.
+          apply (proj2 subst_varfree args). eapply rebuild_sound; eauto.
+          intros t0 x0. apply resolve_var_sound. }
+        destruct f as [|f]; [lia|]. cbn [C07Var.resolve_var]. rewrite Hfree. simpl.
+        exists (RToks [TFunc nm ln r]). split; auto. discriminate.
+  Qed.
+
+  Theorem solved_tokens_fuel_sufficient n tokens :
+    Forall (fun t => refs_lt rk n t = true /\ regular t = true) tokens ->
+    exists F, forall f, (F <= f)%nat -> exists r, solved_tokens env f tokens = Some (RToks r) /\ SubstL tokens r.
+  Proof.
+    intro H.
+    destruct (common_bound (fun t f => exists x, resolve_var f t = Some x /\ fine x) tokens) as [F HF].
+    { rewrite Forall_forall in *. intros t Ht. destruct (H t Ht). now apply (resolve_var_fuel_sufficient n). }
+    exists F. intros f Hf. destruct (subst_each_fine F tokens HF f Hf) as [r Hr].
+    exists r. split; auto. now apply (solved_tokens_sound f).
+  Qed.
 End VarProofs.
+
+(* ------------------------------------------------------------------ where it is not substitution *)
+Definition VAR (name : string) (rest : list tok) := TFunc "var" "var" (TIdent name name :: rest).
+
+(* 1. cyclic definitions: no amount of fuel is enough (Python: RecursionError out of the renderer) *)
+Theorem cycle_diverges :
+  let env := fun k => if String.eqb k "__x" then [VAR "--x" []] else [] in
+  forall fuel, resolve_var env fuel (VAR "--x" []) = None.
+Proof.
+  intros env fuel. induction fuel as [|f IH]; [reflexivity|].
+  change (resolve_var env (S f) (VAR "--x" [])) with (subst_each (resolve_var env f) [VAR "--x" []]).
+  simpl. rewrite IH. reflexivity.
+Qed.
+
+(* 2. a var()-free function next to a var() inside a function: TypeError, where substitution is defined *)
+Theorem plain_function_argument_raises :
+  let env := fun k => if String.eqb k "__a" then [TAtom 5] else [] in
+  let t := TFunc "calc" "calc" [VAR "--a" []; TFunc "max" "max" [TAtom 1]] in
+  (forall fuel, resolve_var env (S (S (S fuel))) t = Some RTypeError) /\
+  Subst env impl_key impl_fallback impl_var_name t [TFunc "calc" "calc" [TAtom 5; TFunc "max" "max" [TAtom 1]]].
+Proof.
+  intros env t. split.
+  - intro fuel. reflexivity.
+  - apply S_fun; try reflexivity.
+    pose (SP := fun x (H : has_var x = false) => S_plain env impl_key impl_fallback impl_var_name x H).
+    pose (NIL := SL_nil env impl_key impl_fallback impl_var_name).
+    assert (A : Subst env impl_key impl_fallback impl_var_name (VAR "--a" []) [TAtom 5]).
+    { apply S_var with (x := "--a"); try reflexivity.
+      exact (SL_cons _ _ _ _ (TAtom 5) [] [TAtom 5] [] (SP (TAtom 5) eq_refl) NIL). }
+    exact (SL_cons _ _ _ _ _ _ [TAtom 5] [TFunc "max" "max" [TAtom 1]] A
+             (SL_cons _ _ _ _ _ [] [TFunc "max" "max" [TAtom 1]] [] (SP (TFunc "max" "max" [TAtom 1]) eq_refl) NIL)).
+Qed.
+
+(* 3. the fallback loses its commas: var(--u, a, b) gives "a b" where CSS substitutes "a, b" *)
+Theorem fallback_commas_lost :
+  let env := fun _ : string => @nil tok in
+  let args := [TIdent "--u" "--u"; TLit ","; TWs; TIdent "a" "a"; TLit ","; TWs; TIdent "b" "b"] in
+  resolve_var env 2 (TFunc "var" "var" args) = Some (RToks [TIdent "a" "a"; TIdent "b" "b"]) /\
+  css_fallback args = [TIdent "a" "a"; TLit ","; TIdent "b" "b"].
+Proof. split; reflexivity. Qed.
+
+(* 4. two custom properties that differ by - / _ are one: var(--a-b) reads --a_b *)
+Theorem dash_underscore_collide :
+  impl_key "--a-b" = impl_key "--a_b" /\ "--a-b" <> "--a_b".
+Proof. split; [reflexivity|discriminate]. Qed.
+
+(* the hypotheses of the sufficiency theorem are satisfiable: --a: var(--b) 1 ; --b: 2 *)
+Example ranked_example :
+  let env := fun k => if String.eqb k "__a" then [VAR "--b" []; TAtom 1]
+                      else if String.eqb k "__b" then [TAtom 2] else [] in
+  let rk := fun k => if String.eqb k "__a" then 1%nat else 0%nat in
+  ranked env rk /\
+  resolve_var env 6 (TFunc "calc" "calc" [VAR "--a" []; TWs; VAR "--u" [TLit ","; TAtom 7]]) =
+  Some (RToks [TFunc "calc" "calc" [TAtom 2; TAtom 1; TWs; TAtom 7]]).
+Proof.
+  intros env rk. split; [|reflexivity].
+  intro k. unfold env, rk.
+  destruct (String.eqb k "__a"); [repeat constructor|].
+  destruct (String.eqb k "__b"); repeat constructor.
+Qed.
